@@ -5,9 +5,8 @@
 EXTENDS HashLin, Json
 HS_small == {<<0, 1, 2, 3, 4, 5, 6, 7, 8>>, <<0, 4, 8, 12, 16, 20, 2, 6, 1>>, <<5, 5, 13, 13, 21, 1, 9, 3, 7>>}
 HS_quick == {<<0, 1, 2, 3, 4, 5, 6, 7>>, <<0, 4, 8, 12, 16, 20, 2, 6>>, <<5, 5, 13, 13, 21, 1, 9, 3>>}
-HS_resize == {[i \in 1..36 |-> i - 1],
-              <<0,32,16,48,8,40,24,56,4,36,20,52,12,44,28,60,2,34,18,50,10,42,26,58,6,38,22,54,14,46,30,62,1,33,17,49>>,
-              <<7,7,7,39,39,71,3,3,35,67,99,1,1,1,1,5,21,37,53,69,85,101,117,0,64,128,192,256,320,11,43,75,107,139,171,203>>}
+HS_resize == {[i \in 1..34 |-> i - 1],
+              <<0,32,16,48,8,40,24,56,4,36,20,52,12,44,28,60,2,34,18,50,10,42,26,58,6,38,22,54,14,46,30,62,1,33>>}
 (* behaviour generation for the real table (64 initial buckets): 700 elements, hashes with many equal low bits *)
 HS_real == {[i \in 1..700 |-> (i * 2654435) % 1048576], [i \in 1..700 |-> ((i % 7) * 64 + (i \div 7) * 4096) % 1048576], [i \in 1..700 |-> i * 64]}
 
